@@ -13,8 +13,11 @@ PROP = dict(
                "mutation), failing sbatch/squeue, lock timeouts and failing writes through the model.",
     level_note="Trusted: Lean kernel (+3 standard axioms), harness/vcluster.py (kill = thread parked forever, no finally runs), "
                "event translation. Partial writes are modelled as 'mutation happened or not' (a torn file is unreadable for "
-               "everybody and nobody acts); the real filelock staleness heuristics (PID reuse, host comparison) are outside.",
-    assumptions=["a kill strikes between file mutations, not inside one write() call",
+               "everybody and nobody acts; the simulation produces them: EDQUOT at the first write after a successful - "
+               "truncating - open, kill before the buffer is flushed); the single fault strikes in any round, on submitter "
+               "processes and (mode nodefaults: lock timeout / quota error when a node appends a result) on node runners; the real filelock staleness heuristics (PID reuse, host comparison) are outside.",
+    assumptions=["a kill / quota error strikes before a file mutation, or after the open succeeded and before any byte reached "
+                 "the disk (file created / truncated, buffered writes lost) - not in the middle of the bytes of one write",
                  "one boundary event = one atomic step"],
     explanation="Proofs/System.lean (RoleInv, Orphan, BatchInv), Proofs/SystemNode.lean, Proofs/SystemRows.lean.",
 )
